@@ -72,7 +72,7 @@ def execute(sc):
             return mk_result([seam], [], False, outcome='skipped: FIFO Manifest', dontcare={'fifo-manifest': 1})
         model = Model(w.root, sc.get('top', 'Manifest'))
         seam = Seam(w.root, order_key=sc['order_key'], virtual_root=True)
-        snap0 = w.snapshot()
+        snap0 = w.snapshot(with_mtime=False)
         judged = 0
         for i, op in enumerate(sc.get('ops', [])):
             sub = op.get('sub', '')
@@ -114,7 +114,7 @@ def execute(sc):
             outcome.append([v.kind, r[0], r[1] if r[0] != 'ok' else repr(r[1]),
                             (cli or {}).get('rc')])
         violations += internal_violations(results)
-        violations += write_violations(seam, snap0, w.snapshot(), 'verify')
+        violations += write_violations(seam, snap0, w.snapshot(with_mtime=False), 'verify')
     nontrivial = judged > 0 and (applied > 0 or any(o.get('last_mtime') is not None or o.get('sub') for o in sc.get('ops', [])))
     counters['mutations_applied'] = applied
     _res_faults = applied_kinds
